@@ -246,6 +246,35 @@ def r5_sibling_guards(rule, root=None):
             rule.ok("Interval::sin and Interval::cos take the same early exits")
         else:
             rule.bad("sincos|siblings", "Interval::sin reaches its quadrant table under %s, Interval::cos under %s: the two are the same function shifted by a quarter period" % (chains["sin"], chains["cos"]), "")
+    # atan2: the whole-range answer [-pi, pi] covers exactly the boxes that touch the branch cut (y = +-0,
+    # x < 0); the quadrant table below it tests `y.lower >= 0.0`, which a lower bound of -0.0 passes although
+    # atan2(-0.0, x < 0) is -pi - so the cut test must be non-strict in y on both sides
+    fn = A.find_fn(IVAL_RS, "atan2", self_ty="Interval", root=root)
+    view = A.value_view(fn["body"])
+    cut = None
+    for c in A.find(view, "Call"):
+        if (A.path_segs(c["func"]) or [])[-2:] == ["Interval", "new"] and [str(A.ftxt(a)) for a in c["args"]] == ["-PI", "PI"]:
+            cut = c
+    if cut is None:
+        rule.lost("the whole-range result Interval::new(-PI, PI) of Interval::atan2")
+    else:
+        xs = [A.binding_name(i_["pat"]) for i_ in fn["sig"]["inputs"] if isinstance(i_, dict) and "pat" in i_]
+        xn = xs[0] if xs else "x"
+        conj = set()
+        for c_ in A.enclosing_conds(view, cut) or []:
+            if A.norm_cond(c_).startswith("!"):
+                continue
+            conj |= set(A.norm_cond(c_).replace("(", "").replace(")", "").split("&&"))
+        want = {"self.lower<=0.0", "self.upper>=0.0", "%s.lower<0.0" % xn}
+        import re as _re
+
+        for l_ in A.find(fn["body"], "Let"):
+            if l_.get("init") is not None and A.ident(A.strip(l_["init"])) == "self" and A.binding_name(l_["pat"]):
+                conj = {_re.sub(r"\b%s\." % _re.escape(A.binding_name(l_["pat"])), "self.", c_) for c_ in conj}
+        if conj == want:
+            rule.ok("Interval::atan2: any box touching the branch cut (y.lower <= 0 <= y.upper, x.lower < 0) is [-pi, pi]", file=IVAL_RS, line=cut["ln"])
+        else:
+            rule.bad("atan2|cut", "Interval::atan2 returns the whole range under %s; it must do so exactly under %s: with a strict test a lower bound of -0.0 (from negating [a, 0]) falls into the upper-half quadrant cases although atan2(-0.0, x<0) = -pi" % (sorted(conj), sorted(want)), A.where(fn, cut))
     fn = A.find_fn(IVAL_RS, "mix", self_ty="Interval", root=root)
     ifs = [i for i in A.find(fn["body"], "If") if "has_nan" in A.unparse(i["cond"])]
     if not ifs:
@@ -293,5 +322,5 @@ def run(ctx):
     # exact for every finite angle (C11 reads the same rule for the `unreachable!()` default)
     r = ctx.rule("R1q", "the trig quadrant of a bound is reduced in f32 (floor, rem_euclid(4.0)) before it is narrowed", 1)
     ctx.guarded(r, C11.r2b_unreachable_ranges)
-    r = ctx.rule("R5", "paired guards agree: sin / cos early exits (whole period with >=), mix's single-bit-pattern tests", 4)
+    r = ctx.rule("R5", "paired guards agree: sin / cos early exits (whole period with >=), mix's single-bit-pattern tests, atan2's branch cut", 5)
     ctx.guarded(r, r5_sibling_guards)
